@@ -475,10 +475,11 @@ class eval_abs(object):
 
     def eval_op_arshift(self, args, op_size, cast_int):
         r = args[1]#&0x1F
-        if args[0]>=0:
-            ret_value = ((args[0]&mymaxuint[op_size])>>r)
-        else:
-            ret_value = -((-args[0])>>r)
+        # operands are unsigned: the sign is the top bit of the op_size-bit value
+        v = int(args[0]) & mymaxuint[op_size]
+        if v >> (op_size-1):
+            v -= 1 << op_size
+        ret_value = v >> int(r)
         return ret_value
 
 
